@@ -273,19 +273,6 @@ pub fn miniz_raw(input: &[u8], level: u8) -> Vec<u8> {
 /// wrong length, a distance several hops down the chain), which the tuned compressors hardly
 /// ever make it do.
 pub fn sloppy_raw(rng: &mut Rng, input: &[u8], sloppiness: u64) -> Vec<u8> {
-    const LEN_BASE: [u16; 29] = [3, 4, 5, 6, 7, 8, 9, 10, 11, 13, 15, 17, 19, 23, 27, 31, 35, 43, 51, 59, 67, 83, 99, 115, 131, 163, 195, 227, 258];
-    const LEN_EXTRA: [u8; 29] = [0, 0, 0, 0, 0, 0, 0, 0, 1, 1, 1, 1, 2, 2, 2, 2, 3, 3, 3, 3, 4, 4, 4, 4, 5, 5, 5, 5, 0];
-    const DIST_BASE: [u16; 30] = [1, 2, 3, 4, 5, 7, 9, 13, 17, 25, 33, 49, 65, 97, 129, 193, 257, 385, 513, 769, 1025, 1537, 2049, 3073, 4097, 6145, 8193, 12289, 16385, 24577];
-    const DIST_EXTRA: [u8; 30] = [0, 0, 0, 0, 1, 1, 2, 2, 3, 3, 4, 4, 5, 5, 6, 6, 7, 7, 8, 8, 9, 9, 10, 10, 11, 11, 12, 12, 13, 13];
-    struct Bits { out: Vec<u8>, acc: u64, n: u32 }
-    impl Bits {
-        fn put(&mut self, v: u32, n: u32) { self.acc |= (v as u64) << self.n; self.n += n; while self.n >= 8 { self.out.push(self.acc as u8); self.acc >>= 8; self.n -= 8; } }
-        fn code(&mut self, c: u32, n: u32) { let mut r = 0; for i in 0..n { r |= ((c >> i) & 1) << (n - 1 - i); } self.put(r, n); }
-        fn lit(&mut self, sym: u32) {
-            match sym { 0..=143 => self.code(0x30 + sym, 8), 144..=255 => self.code(0x190 + sym - 144, 9), 256..=279 => self.code(sym - 256, 7), _ => self.code(0xC0 + sym - 280, 8) }
-        }
-    }
-    let mut b = Bits { out: Vec::new(), acc: 0, n: 0 };
     let mut occ: std::collections::HashMap<[u8; 3], Vec<usize>> = std::collections::HashMap::new();
     let n = input.len();
     // the parse: (length, distance), distance 0 for a literal
@@ -324,6 +311,25 @@ pub fn sloppy_raw(rng: &mut Rng, input: &[u8], sloppiness: u64) -> Vec<u8> {
         toks.push(t);
     }
     let block_len = if rng.chance(1, 2) { usize::MAX } else { rng.range(20, 2000) as usize };
+    encode_fixed(input, &toks, block_len)
+}
+
+/// writes a given LZ77 parse ((length, distance), distance 0 for a literal) of `input` with the
+/// fixed Huffman code, `block_len` tokens per block
+pub fn encode_fixed(input: &[u8], toks: &[(usize, usize)], block_len: usize) -> Vec<u8> {
+    const LEN_BASE: [u16; 29] = [3, 4, 5, 6, 7, 8, 9, 10, 11, 13, 15, 17, 19, 23, 27, 31, 35, 43, 51, 59, 67, 83, 99, 115, 131, 163, 195, 227, 258];
+    const LEN_EXTRA: [u8; 29] = [0, 0, 0, 0, 0, 0, 0, 0, 1, 1, 1, 1, 2, 2, 2, 2, 3, 3, 3, 3, 4, 4, 4, 4, 5, 5, 5, 5, 0];
+    const DIST_BASE: [u16; 30] = [1, 2, 3, 4, 5, 7, 9, 13, 17, 25, 33, 49, 65, 97, 129, 193, 257, 385, 513, 769, 1025, 1537, 2049, 3073, 4097, 6145, 8193, 12289, 16385, 24577];
+    const DIST_EXTRA: [u8; 30] = [0, 0, 0, 0, 1, 1, 2, 2, 3, 3, 4, 4, 5, 5, 6, 6, 7, 7, 8, 8, 9, 9, 10, 10, 11, 11, 12, 12, 13, 13];
+    struct Bits { out: Vec<u8>, acc: u64, n: u32 }
+    impl Bits {
+        fn put(&mut self, v: u32, n: u32) { self.acc |= (v as u64) << self.n; self.n += n; while self.n >= 8 { self.out.push(self.acc as u8); self.acc >>= 8; self.n -= 8; } }
+        fn code(&mut self, c: u32, n: u32) { let mut r = 0; for i in 0..n { r |= ((c >> i) & 1) << (n - 1 - i); } self.put(r, n); }
+        fn lit(&mut self, sym: u32) {
+            match sym { 0..=143 => self.code(0x30 + sym, 8), 144..=255 => self.code(0x190 + sym - 144, 9), 256..=279 => self.code(sym - 256, 7), _ => self.code(0xC0 + sym - 280, 8) }
+        }
+    }
+    let mut b = Bits { out: Vec::new(), acc: 0, n: 0 };
     let chunks: Vec<&[(usize, usize)]> = if toks.is_empty() { vec![&toks[..]] } else { toks.chunks(block_len.min(toks.len())).collect() };
     let mut at = 0usize;
     for (ci, ch) in chunks.iter().enumerate() {
